@@ -2258,6 +2258,7 @@ func (e *CoreExtension) functionParent(args ...interface{}) (interface{}, error)
 		// Create a clean context without parent() function to prevent recursion
 		cleanCtx := NewRenderContext(ctx.env, ctx.context, ctx.engine)
 		cleanCtx.sandboxed = ctx.sandboxed
+		cleanCtx.lastLoadedTemplate = ctx.lastLoadedTemplate
 		defer cleanCtx.Release()
 
 		// Copy all blocks and variables
